@@ -810,7 +810,7 @@ def bad_value_pairs(rng, ctx, k):
                 continue
         if kind == "bool":
             # any Python value is a BOOL through its truthiness: there is no unencodable value
-            py = rng.choice(["text", 7, [0], 0.5])
+            py = rng.choice(["text", 7, [0, 0], 0.5])
             out.append((req, py, ("b", True)))
             continue
         if isinstance(py, list) and len(py) > 1 and c < 0.4:
